@@ -242,6 +242,66 @@ int main(int argc, char** argv) {
     }
     std::cout << "FAILSTATES " << fail_states << "\n";
 
+    // ---- F19: a parse that fails at ANY allocation (the rebuild of the search parameters included) leaves either the
+    // url untouched-and-consistent or EMPTY; a VALID url must list exactly the pairs of its query.
+    // ---- F20: after a failed copy assignment of a parameter list, sort() must still sort.
+    long extra_violations = 0, extra_points = 0;
+    {
+        const std::string big(40, 'z');
+        const std::vector<std::pair<std::string, std::string>> pcases = {
+            { "http://old.example/?a=1", "http://new.example/?first=1&second=" + big },
+            { "http://old.example/?a=1&b=2", "https://n/?" + big + "=" + big + "&k=v&" + big + "2=3" },
+            { "", "http://new.example/?x=" + big + "&y=2" },
+            { "foo:/p?q", "foo://h/?a=" + big } };
+        for (const auto& pc : pcases) {
+            for (long n = 0; n < 400; ++n) {
+                upa::url* x = new upa::url();
+                if (!pc.first.empty()) x->parse(pc.first, nullptr);
+                (void)x->search_params();                       // the params object exists
+                if (pc.first.empty()) x->search_params().append("stale", "1");
+                bool threw = false;
+                { Window w(n); try { x->parse(pc.second, nullptr); } catch (const std::bad_alloc&) { threw = true; } catch (const std::length_error&) { threw = true; } }
+                const bool fired = g_fired;
+                ++extra_points;
+                std::string problem;
+                if (x->is_valid()) {
+                    upa::url_search_params expect(x->search());
+                    auto& got = x->search_params();
+                    auto i1 = expect.begin(); auto i2 = got.begin();
+                    bool same = expect.size() == got.size();
+                    for (; same && i1 != expect.end(); ++i1, ++i2) same = i1->first == i2->first && i1->second == i2->second;
+                    if (!same) problem = "valid url whose parameter list is not the list of its query (" + std::string(x->search()) + " vs " + got.to_string() + ")";
+                } else if (!x->empty()) problem = "invalid url that is not empty";
+                if (threw && x->is_valid() && std::string(x->href()) != pc.first) problem = problem.empty() ? std::string("parse threw but the url is valid with a new value") : problem;
+                if (!problem.empty()) { ++extra_violations; std::cout << "FAULT-VIOLATION op=parse-lockstep [" << pc.first << " <- " << pc.second.substr(0, 40) << "] n=" << n << " outcome=" << (threw ? "bad_alloc" : "completed") << ": " << problem << "\n"; }
+                delete x;
+                if (!fired) break;
+            }
+        }
+        const std::vector<std::pair<std::string, std::string>> ccases = {
+            { "a=1&b=2&c=3", big + "=1&" + std::string(40, 'y') + "=2&" + std::string(40, 'x') + "=3" },
+            { "k=1&l=2", "zz" + big + "=1&b=2&" + big + "=3&a=4" } };
+        for (const auto& cc : ccases) {
+            for (int owned = 0; owned < 2; ++owned) for (long n = 0; n < 400; ++n) {
+                upa::url holder; holder.parse("http://h/?" + cc.first, nullptr);
+                upa::url_search_params standalone(cc.first);
+                upa::url_search_params& dst = owned ? holder.search_params() : standalone;
+                dst.sort();                                    // flagged sorted
+                const upa::url_search_params src(cc.second);
+                bool threw = false;
+                { Window w(n); try { dst = src; } catch (const std::bad_alloc&) { threw = true; } catch (const std::length_error&) { threw = true; } }
+                const bool fired = g_fired;
+                ++extra_points;
+                dst.sort();
+                std::string prev; bool first = true, sorted = true;
+                for (const auto& kv : dst) { if (!first && kv.first < prev) sorted = false; prev = kv.first; first = false; }
+                if (!sorted) { ++extra_violations; std::cout << "FAULT-VIOLATION op=sort-after-failed-copy [" << cc.first << " = " << cc.second.substr(0, 30) << (owned ? " owned" : " standalone") << "] n=" << n << " outcome=" << (threw ? "bad_alloc" : "completed") << ": sort() left the list unsorted: " << dst.to_string() << "\n"; }
+                if (!fired) break;
+            }
+        }
+        std::cout << "EXTRA failure_points=" << extra_points << " violations=" << extra_violations << "\n";
+    }
+
     long violations = 0, points = 0;
     for (std::size_t oi = 0; oi < ops.size(); ++oi) {
         const Op& op = ops[oi];
